@@ -279,8 +279,8 @@ func H_C18_noninterference() {
 // vProbes: nine behaviours, each rendered as a string (0 sequence decode, 1 sequence
 // encode, 2 JSON encode, 3 JSON decode, 4 XML decode, 5 XML decode with cast, 6 XML
 // encode, 7 queries, 8 AnyXml)
-func vProbes(c1, c2 string) [9]string {
-	var out [9]string
+func vProbes(c1, c2 string) [10]string {
+	var out [10]string
 	sortStrs := func(l []string) string {
 		for i := 1; i < len(l); i++ {
 			for j := i; j > 0 && l[j] < l[j-1]; j-- {
@@ -344,6 +344,8 @@ func vProbes(c1, c2 string) [9]string {
 	out[7] = sortStrs(lp) + "|" + sortStrs(qm.PathsForKey("k")) + "|" + m_strconv_Itoa(len(vals)) + "," + m_strconv_Itoa(len(vk))
 	ax, e8 := AnyXml([]interface{}{map[string]interface{}{"-a": "<", "b": ""}, "s&"}, "t")
 	out[8] = enc(ax, e8)
+	ms9, e9 := NewMapXmlSeq([]byte("<r n=\"7\"><c>2.5</c><d>true</d><e>x</e></r>"), true)
+	out[9] = enc(ms9, e9)
 	return out
 }
 
@@ -355,15 +357,17 @@ func vAffects(i int) []int {
 	case 2, 3, 8: // tag sequence numbers, lower-case keys, simple values as maps: the Map decoder
 		return []int{4, 5}
 	case 4, 5, 7: // white-space trimming, snake-case keys, XMPP stream tag: both XML decoders
-		return []int{0, 4, 5}
-	case 6, 9, 10, 11, 12: // cast switches: decoding with the cast flag only
+		return []int{0, 4, 5, 9}
+	case 6, 9, 10, 11: // cast switches: decoding with the cast flag only
+		return []int{5, 9}
+	case 12: // the skip-tag function: the Map decoder with the cast flag only
 		return []int{5}
 	case 13, 14, 15: // empty-element syntax, validity check, escaping: the XML encoders
 		return []int{1, 6, 8}
 	case 16: // decoder-side escaping: the XML decoders
-		return []int{0, 4, 5}
+		return []int{0, 4, 5, 9}
 	case 17: // prefix of the reserved keys: everything XML, nothing JSON
-		return []int{0, 1, 4, 5, 6, 7, 8}
+		return []int{0, 1, 4, 5, 6, 7, 8, 9}
 	case 18, 19: // leaf notation, field separator: queries
 		return []int{7}
 	}
@@ -386,7 +390,7 @@ func H_C18_matrix() {
 	vCallSetter(i, form, b, arg)
 	after := vProbes(c1, c2)
 	aff := vAffects(i)
-	for p := 0; p < 9; p++ {
+	for p := 0; p < 10; p++ {
 		may := false
 		for _, a := range aff {
 			if a == p {
@@ -399,7 +403,7 @@ func H_C18_matrix() {
 	}
 	vRestoreDefaults()
 	again := vProbes(c1, c2)
-	for p := 0; p < 9; p++ {
+	for p := 0; p < 10; p++ {
 		vAssert(again[p] == before[p], "options(matrix): restoring the defaults restores every behaviour")
 	}
 	vCover("matrix")
